@@ -188,7 +188,13 @@ def run(ctx, chk):
         for n, ef, kind in sp.creates[:1]:
             if ('create', ef['site']) not in seen_sites:
                 seen_sites.add(('create', ef['site']))
-                chk.ob('C04.T5', 'create:same-path', from_path(m, sp, ef), ef['site'][2], '%s on %s' % (kind, fmt(ef['args'][0])[:40]))
+                pe = ef
+                if 'OpenOptions' in ef['callee']:
+                    # a builder: the path is the argument of the `open` that ends the chain
+                    later = [e2 for n2, e2 in sp.calls if n2 > n and e2['callee'].endswith('OpenOptions::open')]
+                    pe = later[0] if later else ef
+                shown = pe['args'][1] if pe is not ef and len(pe['args']) > 1 else pe['args'][0]
+                chk.ob('C04.T5', 'create:same-path', from_path(m, sp, pe), ef['site'][2], '%s on %s' % (kind, fmt(shown)[:40]))
     if not n_probe:
         chk.missing('C04.T5', 'usability probe (a call to ShmReader::new reachable from ShmWriter::new)')
     # ---- T2 every file-mutating call site reachable from new() is an effect the path analysis saw (and so is
